@@ -9,7 +9,7 @@ engines = {}
 out_checks = []
 for pid in sorted(checks):
     c = checks[pid]
-    if c.get("disabled"):
+    if c.get("disabled") or not c.get("registered") or "level_text" not in c:
         continue
     engines.setdefault(c["engine"], []).append(pid)
     out_checks.append({
